@@ -214,4 +214,92 @@ class C02:
         ctx.coverage['test_data_cases'] = cls.n_testdata
 
 
-SPECS = {'C01': C01, 'C02': C02}
+def describe_hex(case):
+    out = []
+    for l in case:
+        t = l.split()
+        if t and t[0] in ('p2w', 'rej', 'det', 'fuzz') and len(t) > 1:
+            try:
+                out.append(bytes.fromhex(t[1]).decode('utf-8', 'replace'))
+            except ValueError:
+                pass
+    return out
+
+
+C02.describe = staticmethod(describe_hex)
+
+
+class C08:
+    what = 'XmlTabGen.v (duplicate checks, reference tables, mandatory attributes) regenerated from the parser; fault injection on libadm'
+    use_model = False
+    snapshots = False
+    rule = ('valid generated ADM files (accepted by parseXml before the injection) crossed with every site of: a repeated '
+            'element / a repeated ID per element kind (first, middle, last), an IDRef that names no element for each of '
+            'the fifteen reference kinds (first, middle, last reference; added when the file has none), typeLabel / '
+            'typeDefinition contradicting the ID, formatLabel contradicting formatDefinition or both missing, an '
+            'audioTrackUID with a track format and a channel format reference (both orders), block format IDs of another '
+            'channel / another type / with a gap / repeated (DirectSpeakers, Objects, HOA), each mandatory attribute '
+            'removed, validated values out of range; non-trivial = faulty files')
+    assumptions = ['the base files come from tools/admxmlgen.py; a base file the parser rejects is not used',
+                   'a faulty file counts as rejected when parseXml throws any exception derived from std::exception']
+    nfiles_quick, nfiles_thorough = 40, 1500
+    faults = {}
+
+    @classmethod
+    def gen(cls, ctx):
+        import admxmlgen
+        import faultgen
+        import heapcheck
+        import vlib
+        n = cls.nfiles_quick if ctx.quick() else cls.nfiles_thorough
+        exe = vlib.build_admdrv('plain')
+        validated = faultgen.validated_params(vlib.REPO)
+        cls.validated = len(validated)
+        bases = []
+        for _ in range(n):
+            _x, info = admxmlgen.gen_file(ctx.rng, size=ctx.rng.choice([1, 2, 2, 3]))
+            bases.append(info)
+        import random
+        rendered = [admxmlgen.wrap(i['tree'], random.Random(1), i['env']) for i in bases]
+        outs = heapcheck.run_cases(exe, [['rej %s %s' % (x.encode().hex(), i['env']), 'end'] for x, i in zip(rendered, bases)])
+        cases = []
+        cls.bases_accepted = 0
+        cls.by_fault = {}
+        for info, o in zip(bases, outs):
+            if not o or not o[0].startswith('ok accepted'):
+                continue
+            cls.bases_accepted += 1
+            for fault, site, tree in faultgen.enumerate_faults(info['tree'], validated):
+                x = admxmlgen.wrap(tree, random.Random(1), info['env'])
+                line = 'rej %s %s' % (x.encode().hex(), info['env'])
+                cls.faults[line] = (fault, site)
+                cls.by_fault[fault] = cls.by_fault.get(fault, 0) + 1
+                cases.append([line, 'end'])
+        return cases
+
+    @staticmethod
+    def nontrivial(ops):
+        return True
+
+    @classmethod
+    def oracle(cls, case, ops):
+        out = []
+        for op, r, _s in ops:
+            if op.startswith('rej') and r.startswith('ok accepted'):
+                fault, site = cls.faults.get(op, ('unknown', ''))
+                out.append(('accepted:' + fault, 'parseXml returns a document for a file with the fault `%s` (%s)' % (fault, site)))
+        return out
+
+    @staticmethod
+    def shrink(case, fails):
+        return case          # deleting parts of a faulty file can delete the fault
+
+    describe = staticmethod(describe_hex)
+
+    @classmethod
+    def extra(cls, ctx, proof, found):
+        ctx.coverage['base_files_accepted'] = cls.bases_accepted
+        ctx.coverage['faults_injected'] = dict(sorted(cls.by_fault.items()))
+
+
+SPECS = {'C01': C01, 'C02': C02, 'C08': C08}
